@@ -2,6 +2,7 @@ package main
 
 import (
 	"fmt"
+	"github.com/VKCOM/tl/pkg/basictl"
 	"sort"
 	"strconv"
 	"strings"
@@ -48,5 +49,37 @@ func init() {
 		}
 		sort.Strings(parts)
 		return "ok " + strings.Join(parts, ";")
+	}
+}
+
+// scripted basictl.Rand (deterministic from a seed; splitmix64)
+type srand struct{ s uint64 }
+
+func (r *srand) next() uint64 {
+	r.s += 0x9e3779b97f4a7c15
+	z := r.s
+	z = (z ^ (z >> 30)) * 0xbf58476d1ce4e5b9
+	z = (z ^ (z >> 27)) * 0x94d049bb133111eb
+	return z ^ (z >> 31)
+}
+func (r *srand) Uint32() uint32       { return uint32(r.next() >> 32) }
+func (r *srand) Int31() int32         { return int32(r.next() >> 33) }
+func (r *srand) Int63() int64         { return int64(r.next() >> 1) }
+func (r *srand) NormFloat64() float64 { return float64(int64(r.next()>>11)-(1<<52)) / float64(1<<50) }
+
+func init() {
+	// rand1 <name> <seed>: FillRandom with a scripted source, written boxed
+	ops["rand1"] = func(f []string) string {
+		obj := factory.CreateObjectFromName(f[1])
+		if obj == nil {
+			return "driver-error no object " + f[1]
+		}
+		seed, _ := strconv.ParseUint(f[2], 10, 64)
+		obj.FillRandom(basictl.NewRandGenerator(&srand{s: seed}))
+		w, err := obj.WriteTL1BoxedGeneral(nil)
+		if err != nil {
+			return "writeerr"
+		}
+		return "ok " + hx(w)
 	}
 }
